@@ -72,6 +72,10 @@ type tcase struct {
 	TZ     string   `json:"process_zone,omitempty"`
 	WsDir  string   `json:"workspace_directory,omitempty"`
 	Decoys []string `json:"sibling_directories,omitempty"`
+	// Namesakes: the directory the binary is started in (not the workspace) holds files named like the scripts of the
+	// workspace, with other texts, and the workspace holds a file named like the input; the input path is given
+	// relative to the starting directory
+	Namesakes bool `json:"namesakes_in_current_directory_and_workspace,omitempty"`
 }
 
 type libOut struct {
@@ -179,6 +183,21 @@ func runBinary(c *tcase) (stdout string, before, after time.Time, err error) {
 		_ = os.MkdirAll(filepath.Join(dir, d), 0o755)
 		_ = os.WriteFile(filepath.Join(dir, d, c.Name), []byte("add_key(from_sibling_directory, 1)\nset_measurement(\"decoy\")"), 0o644)
 	}
+	if c.Namesakes && c.Mode == "workspace" {
+		for n := range c.Scripts {
+			_ = os.WriteFile(filepath.Join(dir, n), []byte("add_key(from_current_directory, 1)\nset_measurement(\"decoy-cwd\")\nuse(\"no-such-script.p\")"), 0o644)
+		}
+		for n := range c.Other {
+			if !strings.Contains(n, "/") {
+				_ = os.WriteFile(filepath.Join(dir, n), []byte("add_key(from_current_directory, 2)"), 0o644)
+			}
+		}
+		decoy := "data of a namesake of the input file inside the workspace\n"
+		if c.Input == "lineprotocol" {
+			decoy = "decoy,from=workspace v=1i 1500000000000000000\n"
+		}
+		_ = os.WriteFile(filepath.Join(ws, "input.dat"), []byte(decoy), 0o644)
+	}
 	store := filepath.Join(dir, "store")
 	_ = os.MkdirAll(store, 0o755)
 	for n, s := range c.Scripts {
@@ -241,6 +260,9 @@ func runBinary(c *tcase) (stdout string, before, after time.Time, err error) {
 			}(in, c.Data)
 		default:
 			_ = os.WriteFile(in, []byte(c.Data), 0o644)
+			if c.Namesakes && c.Mode == "workspace" {
+				in = "input.dat" // relative to the directory the binary is started in
+			}
 		}
 		args = append(args, "-i", in, "-t", c.Input)
 	}
@@ -673,6 +695,11 @@ func genCase(t *rapid.T) (*tcase, bool, []string) {
 	if !strings.Contains(scriptText, "default_time") && !strings.Contains(scriptText, "datetime") && rapid.IntRange(0, 2).Draw(t, "tz") == 0 {
 		c.TZ = rapid.SampledFrom([]string{"Asia/Tokyo", "America/New_York", "Asia/Kolkata", "Pacific/Chatham"}).Draw(t, "zone")
 		labels = append(labels, "process-zone/"+c.TZ)
+		nontrivial = true
+	}
+	if c.Mode == "workspace" && rapid.IntRange(0, 2).Draw(t, "namesakes") == 0 {
+		c.Namesakes = true
+		labels = append(labels, "workspace/namesakes-in-the-current-directory")
 		nontrivial = true
 	}
 	if rapid.IntRange(0, 4).Draw(t, "symlinks") == 0 {
